@@ -100,13 +100,15 @@ var c12Lead = []string{"\t", "", " ", "    ", "\t\t "}
 var c12LeadCol0 = []string{"", " ", "\t"}
 
 // after-statement alternatives (0 = nothing)
-var c12After = []string{"", " ;c", ";c", " #c", " ;\"", " #;", " ;", "\n", "\n;c", "\n\t# c", "\n  \t"}
+var c12After = []string{"", " ;c", ";c", " #c", " ;\"", " #;", " ;", "\n", "\n;c", "\n\t# c", "\n  \t",
+	// comment texts with unbalanced brackets and quotes (anything a pre-scan of the raw text could trip over)
+	" ; 1) clear", " ; (see below", " # 3.5\" disk", " ; it's", " ;[", " ;]", "\n; :-) ((", " ; DB 1,2 ; MOV AX,[BX"}
 var c12Before = []string{"", "\n", ";c\n", "\t# c\n", "  \t\n"}
 
 func c12Scenario(bound int, name string) *core.Scenario {
 	return &core.Scenario{
 		Name: name, Bound: bound,
-		Rule: fmt.Sprintf("25 base programs covering every statement kind, re-laid-out token-wise: every layout that deviates from the canonical one in at most %d places (each gap: alternative whitespace; after each statement: 10 comment/blank-line variants; before the first statement: 4; line-ending convention LF/CRLF/CR; final newline absent); output and error class must equal the canonical layout's; non-trivial = canonical assembled, emitted >= 1 byte and the layout deviates", bound),
+		Rule:   fmt.Sprintf("25 base programs covering every statement kind, re-laid-out token-wise: every layout that deviates from the canonical one in at most %d places (each gap: alternative whitespace; after each statement: 18 comment/blank-line variants (incl. comment texts with unbalanced brackets and quotes); before the first statement: 4; line-ending convention LF/CRLF/CR; final newline absent); output and error class must equal the canonical layout's; non-trivial = canonical assembled, emitted >= 1 byte and the layout deviates", bound),
 		Bounds: map[string]any{"programs": len(c12Programs), "deviation_bound": bound, "gap_alternatives": map[string]any{"optional": c12Opt, "mandatory": c12Mand, "leading": c12Lead}, "after_statement": c12After, "before_first": c12Before, "line_endings": []string{"LF", "CRLF", "CR"}},
 		Build: func(c *core.Chooser) *core.Case {
 			pi := c.Pick("prog", len(c12Programs))
@@ -174,10 +176,10 @@ func c12Scenario(bound int, name string) *core.Scenario {
 			csrc := canon.String()
 			cost := c.Cost()
 			return &core.Case{
-				Key:  fmt.Sprintf("prog %d|%q", pi, src),
+				Key: fmt.Sprintf("prog %d|%q", pi, src),
 				Feat: feat("prog", fmt.Sprint(pi), "cost", fmt.Sprint(cost), "eol", fmt.Sprintf("%q", eol), "before", fmt.Sprint(beforeIdx), "lead0", fmt.Sprint(lead0),
 					"first_is_label", fmt.Sprint(firstIsLabel), "nofinal", fmt.Sprint(nofinalF)),
-				Srcs: []string{src, csrc},
+				FreshRefs: true, Srcs: []string{src, csrc},
 				Judge: func(rs []*core.Result) core.Verdict {
 					v := core.Verdict{}
 					r, cr := rs[0], rs[1]
@@ -259,9 +261,7 @@ func c12CLI(r *core.Run, tier string) {
 		firstIsLabel := strings.HasSuffix(strings.Fields(prog[0])[0], ":")
 		ref := p.CLI(csrc, nil, false)
 		for _, v := range vs {
-			if v.leader && firstIsLabel {
-				continue // known finding C12-F01 (comment line before a first-statement label)
-			}
+			_ = firstIsLabel // (a comment line before a first-statement label was the known finding C12-F01 until cd8352b)
 			wg.Add(1)
 			sem <- struct{}{}
 			go func(pi int, v variant) {
@@ -269,8 +269,9 @@ func c12CLI(r *core.Run, tier string) {
 				defer func() { <-sem }()
 				src := csrc
 				if v.comment {
-					// comment text: ASCII, Shift_JIS (ending in a 0x5C trail byte) or UTF-8, by program index
-					txt := []string{"last comment", "\x93\xfa\x96\x7b\x8c\xea\x83\x5c", "日本語ソ"}[pi%3]
+					// comment text: ASCII, Shift_JIS (ending in a 0x5C trail byte), UTF-8, or unbalanced brackets/quotes, by program index
+					txts := []string{"last comment", "\x93\xfa\x96\x7b\x8c\xea\x83\x5c", "日本語ソ", "1) clear (the rest", "3.5\" floppy, it's", "] [ ) ( \"", "\x83\x5c) ("}
+					txt := txts[pi%len(txts)]
 					src = strings.TrimSuffix(src, "\n") + " ; " + txt + "\n"
 					if v.leader {
 						src = "; " + txt + "\n" + strings.TrimPrefix(src, "")
@@ -315,7 +316,7 @@ func c12CLI(r *core.Run, tier string) {
 
 func init() {
 	register(&Property{
-		ID: "C12",
+		ID:     "C12",
 		Custom: c12CLI,
 		Scenarios: func(tier string) []*core.Scenario {
 			if tier == "thorough" {
